@@ -266,9 +266,9 @@ BOUNDED = ["termination NOT decided for: pdf_extractor._TableExtractor._extract 
 EXECUTOR_KW = {}
 for _rel, _fn in registered_extractors():
     EXECUTOR_KW[f"{_rel}::{_fn}"] = {"merge": True, "abstract": True, "inline_calls": False}
-EXECUTOR_KW["sharepoint2text/__init__.py::read_file"] = {"abstract": True, "inline_calls": False}
-EXECUTOR_KW["sharepoint2text/parsing/extractors/archive_extractor.py::_process_archive_entry"] = {"abstract": True, "inline_calls": False}
-EXECUTOR_KW["sharepoint2text/cli.py::main"] = {"abstract": True, "inline_calls": False}
+EXECUTOR_KW["sharepoint2text/__init__.py::read_file"] = {"abstract": True, "inline_calls": False, "inline_local": True}
+EXECUTOR_KW["sharepoint2text/parsing/extractors/archive_extractor.py::_process_archive_entry"] = {"abstract": True, "inline_calls": False, "inline_local": True}
+EXECUTOR_KW["sharepoint2text/cli.py::main"] = {"abstract": True, "inline_calls": False, "inline_local": True}
 from contracts import readfile as _rf  # noqa: E402
 EXECUTOR = _rf.ReadFileExecutor
 
